@@ -473,7 +473,7 @@ def run(tier, R):
         for wk in ("focus", "simple", "mini"):
             if wk != "focus" and len(kl) not in (0, 1, 2, 3) and quick:
                 continue
-            for size in ((W, 1), (W, 3)) if quick else SIZES:
+            for size in ((W, 1), (W, 3)) if quick else (SIZES if wk == "focus" or len(kl) < 3 else ((W, 3),)):  # (three-item lists on the other two walkers: one size, for the budget)
                 cfgs.append((wk, kl, size))
         if len(kl) in (1, 3):
             cfgs.append(("gen", kl, (W, 3)))
